@@ -27,6 +27,16 @@ Theorem C12_zero_weight_no_copies :
 Proof. intros. eapply systematic_zero_weight; eauto. Qed.
 Print Assumptions C12_zero_weight_no_copies.
 
+(** every index systematic resampling returns names an input particle (the last cumulative
+    weight is the total and every pointer lies strictly below it) - in exact arithmetic; the
+    code's float32 cumulative sum is covered by the correspondence at the ends of (0,1) *)
+Theorem C12_systematic_indices_in_range :
+  forall (ws : list Z) (N : nat) (a b : Z),
+    Forall (fun w => 0 <= w) ws -> 0 < sumz ws -> (0 < N)%nat -> 0 < a < b ->
+    Forall (fun i => (i < length ws)%nat) (sys_indices ws N a b).
+Proof. intros. apply sys_indices_in_range; assumption. Qed.
+Print Assumptions C12_systematic_indices_in_range.
+
 (** resample (either method: any index vector): same number of particles, each
     output particle is the input particle at its index (all fields taken from
     one source, since the particle is indexed as a whole), weights reset,
